@@ -512,6 +512,46 @@ def generated(ctx, its, full=True):
               len({"true", "invalidates"} & kinds_seen) + (1 if kinds_seen & {"false", "const"} else 0), 3)
 
 
+def macro_setter_name(ctx, f):
+    """M-SETNAME (added after seeded change C28): the #[interface] macro maps the method `set_<p>` to the property the
+    getter `<p>` defines; the name must be derived by removing the `set_` prefix exactly once. `trim_start_matches`
+    / `replace` remove it repeatedly or anywhere: a property called `SetPoint` (`set_set_point`) would be registered
+    as a second, write-only property `Point`. Decided on the macro's own code (zbus_macros is a normal crate to rustc)."""
+    fam = [b for b in f.all_bodies("zbus_macros") if b.root == "zbus_macros::iface::MethodInfo::new"]
+    ctx.need(fam, "zbus_macros::iface::MethodInfo::new")
+    tests = []
+    for b in fam:
+        for c in mir.calls(b):
+            if c.is_("starts_with") and any((mir.origin(b, a)[0] == "const" and mir.origin(b, a)[1].get("v", mir.origin(b, a)[1].get("pv")) == "set_") for a in c.args):
+                tests.append((b, c))
+    ctx.floor("M-SETNAME", "`starts_with(\"set_\")` tests in MethodInfo::new", len(tests), 1)
+    for b, t in tests:
+        good, bad = [], []
+        for c in mir.calls(b):
+            name = c.callee.rsplit("::", 1)[-1]
+            consts = []
+            for a in c.args:
+                o = mir.origin(b, a)
+                if o[0] == "const":
+                    consts.append(o[1].get("v", o[1].get("pv")))
+            if name == "strip_prefix" and "set_" in consts:
+                good.append(c)
+            elif name in ("index", "get") and len(c.args) > 1:
+                o = mir.origin(b, c.args[1])
+                if o[0] == "rv" and o[1][0] == "agg" and (o[1][2] or "").endswith("RangeFrom"):
+                    k = mir.resolve_const(b, o[1][4][0])
+                    if k is not None and k.get("v") == len("set_"):
+                        good.append(c)
+                    elif k is not None:
+                        bad.append((c, "slices off %s characters, the prefix has %d" % (k.get("v"), len("set_"))))
+            elif name in ("trim_start_matches", "trim_matches", "replace", "replacen", "trim_end_matches") and "set_" in consts:
+                bad.append((c, "%s removes the prefix repeatedly / anywhere" % name))
+        ctx.ob("M-SETNAME", "setter-property-name:prefix-removed-once", bool(good) and not bad,
+               "the property name of a setter is the method name without its first `set_`" if good and not bad else
+               ("; ".join(w for c, w in bad) if bad else "no recognised derivation of the property name from `set_<name>`"),
+               (bad[0][0].where if bad else (good[0].where if good else t.where)))
+
+
 def run(ctx):
     ctx.explanation = (
         "Static rules over MIR. Library (K1): R-TABLE on fdo::Properties::{get,set,get_all}: missing node/interface -> "
@@ -530,6 +570,7 @@ def run(ctx):
     L.prefetch(ctx, cfgs + (["K3"] if ctx.tier == "thorough" else []))
     f1 = ctx.facts("K1")
     library(ctx, f1, "")
+    macro_setter_name(ctx, f1)
     if ctx.tier == "thorough":
         library(ctx, ctx.facts("K3"), "K3:")
     its = L.interfaces(ctx, cfgs)
